@@ -517,6 +517,10 @@ def correspondence(ctx, obs, quick):
                 ("canary2", f"check_seq2d {cq(0)} {cq(1)} 2 {cq(0)} {cq(2)} 3 {cqpairs([(0, 0), (0, 1), (0, 2), (1, 0), (1, 1), (1, 2)])} {cq(TOL_MODEL)}", None),
                 ("canary3", "transpose_vec (seq 0 7) 3", "Ok [0; 3; 1; 4; 2; 5]")]
     res = run_compute_cases(ctx, "C14", IMPORTS, "", exprs + [(c[0], c[1]) for c in canaries])
+    missing = [(c, e) for c, e in exprs + [(c[0], c[1]) for c in canaries] if c not in res]
+    if missing:    # a shard that died (time-out under load): evaluate its cases once more before calling anything a disagreement
+        ctx.log(f"   {len(missing)} evaluations without a result: retried")
+        res.update(run_compute_cases(ctx, "C14retry", IMPORTS, "", missing, shards=min(NCPU, max(1, len(missing) // 4))))
     for cid, _, expect in canaries:
         got = (res.get(cid) or "").replace("%nat", "")
         if (expect is not None and got.replace(" ", "") != expect.replace(" ", "")) or (expect is None and got in ("", "[]")):
